@@ -1,6 +1,45 @@
 import Srsim.Spec.Proto
-/-! placeholder, replaced by the full theorem file once its proofs are in -/
-namespace Proto
-theorem C03_monitor_rejects_after_termination :
-    step (α := Rat) { stage := 13 } (.phase1End) = none := by decide
-end Proto
+import Srsim.Proofs.SimProto
+/-!
+# C03 — battle lifecycle events follow the turn protocol
+
+`Sim.run` is the model of `pkg/simulation` (see `Model/Sim.lean`); what characters, enemies and
+modifiers do is an arbitrary table of programs of engine calls (`cfg.progs`), the script is an
+arbitrary decision function, damage and HP outcomes are arbitrary oracles.  For every such run that
+returns a result (terminated, no error) the event stream is a complete word of the protocol
+monitor `Proto`: lifecycle order, at most one own action per turn by the acting unit, inserted
+actions/abilities only inside the two queue windows, action/insert/attack/hit brackets balanced,
+matched and never interleaved, exactly one termination, which is the last event.
+-/
+namespace Sim
+variable {α : Type} [Num α]
+
+/-- a fresh simulation: nothing emitted, no open attack, not stopped, no acting unit -/
+structure Init (s : S α) : Prop where
+  evs : s.evs = []
+  inAttack : s.inAttack = none
+  terminated : s.terminated = false
+  err : s.err = none
+  active : s.active = 0
+
+/-- the battle-start listener opens no attack (an attack opened there would never be closed before
+the `BattleStart` event: the real engine has the same hole, `engage` is a TODO) -/
+def StartOK (cfg : Cfg) : Prop := ∀ p, cfg.start = some p → ∀ c ∈ cfg.progs p, c.op ≠ 'A'
+
+theorem C03_protocol (cfg : Cfg) (fuel qfuel : Nat) (s0 : S α) (h0 : Init s0) (hs : StartOK cfg)
+    (ht : (run cfg fuel qfuel s0).terminated = true) (he : (run cfg fuel qfuel s0).err = none) :
+    Proto.accepts (run cfg fuel qfuel s0).evs.reverse = true :=
+  accepts_of_postT _ (run_post cfg fuel qfuel s0 h0.evs h0.inAttack h0.terminated h0.active hs) ht he
+
+/-- the monitor is not vacuous: it rejects an event after the termination, a second own action,
+an inserted action outside the windows, and interleaved brackets -/
+theorem C03_monitor_rejects :
+    Proto.step (α := α) { stage := 13 } .phase1End = none ∧
+    Proto.step (α := α) { stage := 9, active := 1 } (.actionStart 1 1 false) = none ∧
+    Proto.step (α := α) { stage := 8, active := 1 } (.actionStart 2 1 false) = none ∧
+    Proto.step (α := α) { stage := 10 } (.insertStart 1 0 75) = none ∧
+    Proto.step (α := α) { stage := 7, stack := [.attack 1 1, .action 1 1 true] } (.actionEnd 1 1 true) = none ∧
+    Proto.step (α := α) { stage := 7, stack := [.action 1 1 true] } (.actionEnd 2 1 true) = none := by
+  simp [Proto.step]
+
+end Sim
